@@ -377,6 +377,12 @@ def handleKernel (line : String) : Option String :=
       match ints hay, ints vs with
       | some hay, some vs => some (showNats (vs.map fun v => if isinSorted hay v then 1 else 0))
       | _, _ => some "ERR parse"
+    | ["hset"], q :: batches =>
+      match ints q, batches.mapM ints with
+      | some q, some bs =>
+        let s : HashSetM := bs.foldl HashSetM.addSorted {}
+        some (" | ".intercalate (s.data.map showInts) ++ " ; " ++ showNats (q.map fun v => if s.unseen v then 1 else 0))
+      | _, _ => some "ERR parse"
     | ["tsplit", k], [xs] =>
       match k.toNat?, nats xs with
       | some k, some xs => some (showLL (tensorSplit k xs))
